@@ -290,6 +290,84 @@ fn run_shape<E: Elem>(c: usize, r: usize, ctx: &mut Ctx) {
     }
 }
 
+/// Arrays of `()` whose cell count is at or near usize::MAX (only zero-sized elements can get
+/// there): the arithmetic of removal must not overflow. Only operations whose work is proportional
+/// to the SMALL dimension are run.
+fn run_huge_zst(ctx: &mut Ctx) {
+    let m = usize::MAX;
+    let shapes: Vec<(usize, usize)> = vec![(m, 1), (m - 1, 1), (m / 3, 3), (m / 5, 5), (m / 2, 2), (1, m), (1, m - 1), (3, m / 3), (5, m / 5), (1 << 32, 1 << 31)];
+    for (c, r) in shapes {
+        for op in ["remove_col", "pop_col", "remove_row", "pop_row"] {
+            let row = op.ends_with("row");
+            // a column drain has `r` items and its destructor walks them; a row drain of () has no drop work
+            if !row && r > 8 {
+                continue;
+            }
+            let dim = if row { r } else { c };
+            let idxs: Vec<usize> = if op.starts_with("pop") { vec![dim - 1] } else { vec![0, 1.min(dim - 1), dim - 1, dim, usize::MAX] };
+            for i in idxs {
+                for take in 0..3usize {
+                    ctx.case(
+                        || format!("TooDee<()> {}x{} {}({}) take {} then drop", c, r, op, i, take),
+                        |cs| {
+                            cs.transitions = 1 + take as u64;
+                            cs.traces = 1;
+                            let mut t: TooDee<()> = TooDee::init(c, r, ());
+                            let in_range = i < dim;
+                            let line = if row { c } else { r };
+                            let mut lens: Vec<usize> = Vec::new();
+                            let res = guarded(|| {
+                                macro_rules! go {
+                                    ($d:expr) => {{
+                                        let mut d = $d;
+                                        lens.push(d.len());
+                                        for k in 0..take {
+                                            let _ = if k % 2 == 0 { d.next() } else { d.next_back() };
+                                            lens.push(d.len());
+                                        }
+                                        drop(d);
+                                    }};
+                                }
+                                match op {
+                                    "remove_col" => go!(t.remove_col(i)),
+                                    "remove_row" => go!(t.remove_row(i)),
+                                    "pop_col" => go!(t.pop_col().unwrap()),
+                                    _ => go!(t.pop_row().unwrap()),
+                                }
+                            });
+                            cs.state((c, r, op, i, take));
+                            if !in_range {
+                                cs.outcome("rejected");
+                                if res.is_ok() {
+                                    cs.fail("remove:accepts-bad-index", format!("{}({}) on {}x{} returned", op, i, c, r));
+                                }
+                                if t.size() != (c, r) || t.data().len() != c * r {
+                                    cs.fail("remove:rejected-but-modified", format!("size {:?}, {} cells", t.size(), t.data().len()));
+                                }
+                                return;
+                            }
+                            cs.outcome("removed");
+                            cs.nontrivial((c, r, op, i, take));
+                            if let Err(e) = res {
+                                cs.fail("remove:panics-on-valid", format!("valid removal on a huge zero-sized array panicked: {}", e));
+                                return;
+                            }
+                            let exp_lens: Vec<usize> = (0..=take).map(|k| line.saturating_sub(k)).collect();
+                            if lens != exp_lens {
+                                cs.fail("drain:len", format!("len() sequence {:?}, expected {:?}", lens, exp_lens));
+                            }
+                            let expect = if row { if r == 1 { (0, 0) } else { (c, r - 1) } } else if c == 1 { (0, 0) } else { (c - 1, r) };
+                            if t.size() != expect || t.data().len() != expect.0 * expect.1 {
+                                cs.fail("remove:huge-dims", format!("size {:?} with {} cells, expected {:?}", t.size(), t.data().len(), expect));
+                            }
+                        },
+                    );
+                }
+            }
+        }
+    }
+}
+
 impl Prop for C07P {
     fn id(&self) -> &'static str {
         "C07"
@@ -307,9 +385,14 @@ impl Prop for C07P {
                 v.push(format!("{} {}x{}", tag, c, r));
             }
         }
+        v.push("hugezst".into());
         v
     }
     fn run_unit(&self, unit: &str, ctx: &mut Ctx) {
+        if unit == "hugezst" {
+            run_huge_zst(ctx);
+            return;
+        }
         let (tag, dims) = unit.split_once(' ').unwrap();
         let (c, r) = dims.split_once('x').unwrap();
         let (c, r): (usize, usize) = (c.parse().unwrap(), r.parse().unwrap());
@@ -323,7 +406,7 @@ impl Prop for C07P {
         true
     }
     fn rule(&self) -> String {
-        "every shape (0..=N)^2 x {remove_row(i), remove_col(i) : i in 0..=dim} + pop_row + pop_col (also on the empty array) x element type {u32, Tracked} x {exact, spare} capacity x EVERY sequence over {next, next_back} of length 0..=len+1 (all interleavings, including one call past exhaustion) plus every sequence up to depth 3 (thorough: 4) over the extended alphabet {next, next_back, nth(1), nth_back(1), nth(2), nth_back(len)} with every prefix closed by count / last / fold / rfold / for_each / rev-then-forward (the adaptors skip, step_by and rev are built on these), with len() and size_hint() observed after every call, then the drain is dropped. \
+        "(arrays of () with usize::MAX, MAX-1, MAX/3 x 3, ... cells are additionally run through every removal whose work is proportional to the small dimension) every shape (0..=N)^2 x {remove_row(i), remove_col(i) : i in 0..=dim} + pop_row + pop_col (also on the empty array) x element type {u32, Tracked} x {exact, spare} capacity x EVERY sequence over {next, next_back} of length 0..=len+1 (all interleavings, including one call past exhaustion) plus every sequence up to depth 3 (thorough: 4) over the extended alphabet {next, next_back, nth(1), nth_back(1), nth(2), nth_back(len)} with every prefix closed by count / last / fold / rfold / for_each / rev-then-forward (the adaptors skip, step_by and rev are built on these), with len() and size_hint() observed after every call, then the drain is dropped. \
          Oracle: each call's result equals the ideal double-ended sequence of the removed line (by label and by element identity); len()/size_hint() exact at every step; after the drop the array equals the model without that line (same elements, same relative positions), (0,0) if it was the last line; ledger: yielded elements stay alive while held, the rest of the line is dropped exactly once, nothing else; out-of-range index panics and leaves the array untouched; pop on empty returns None; guard allocator clean. \
          states = distinct (shape, op, index, front/back cursor) positions of the ideal sequence reached; transitions = drain calls; traces_validated_against_impl = drain lifetimes executed on the real code."
             .into()
